@@ -137,98 +137,136 @@ Fixpoint parse_ident_list (fuel : nat) (st : pstate) (acc : list (list N))
         else Some (VIdents acc', st1)
   end.
 
-Fixpoint parse_value (fuel : nat) (st : pstate) : option (value * pstate) :=
+(** The bodies of parseValue, parseObjectEntries and parseListEntries, with
+    the recursive calls as parameters (the functions below tie the knot on
+    the fuel). *)
+
+Definition pv_body
+    (poe : pstate -> list (okey * value) -> option (list (okey * value) * pstate))
+    (ple : pstate -> list value -> option (list value * pstate))
+    (pil : pstate -> list (list N) -> option (value * pstate))
+    (st : pstate) : option (value * pstate) :=
+  let t := cur st in
+  match pty t with
+  | TKeyword =>
+      let st1 := p_next st in
+      if list_N_eqb (plit t) lit_true || list_N_eqb (plit t) lit_false
+      then Some (VBool (plit t), st1)
+      else if list_N_eqb (plit t) lit_null then Some (VNull, st1)
+      else Some (VNil, p_add EUnexpectedKeyword st1)
+  | TString =>
+      let '(bv, st2) := parse_string_value t (p_next st) in
+      Some (VBasic None TString (plit t) bv, st2)
+  | TInt => Some (VBasic None TInt (plit t) BNone, p_next st)
+  | TFloat =>
+      let '(bv, st2) := parse_float_value t (p_next st) in
+      Some (VBasic None TFloat (plit t) bv, st2)
+  | TOperator =>
+      if lit_is t [43] || lit_is t [45] then
+        let st1 := p_next st in
+        let n := cur st1 in
+        match pty n with
+        | TInt => Some (VBasic (Some (plit t)) TInt (plit n) BNone, p_next st1)
+        | TFloat =>
+            let '(bv, st2) := parse_float_value n (p_next st1) in
+            Some (VBasic (Some (plit t)) TFloat (plit n) bv, st2)
+        | _ => Some (VNil, p_add EExpectNumber st1)
+        end
+      else if lit_is t [123] then
+        match poe (p_next st) [] with
+        | None => None
+        | Some (es, st2) => Some (VObject es, snd (expect_op [125] st2))
+        end
+      else if lit_is t [91] then
+        match ple (p_next st) [] with
+        | None => None
+        | Some (es, st2) => Some (VList es, snd (expect_op [93] st2))
+        end
+      else Some (VNil, p_add EExpectOperand st)
+  | TIdent => pil st []
+  | _ => Some (VNil, p_add EExpectOperand st)
+  end.
+
+Definition poe_body
+    (pv : pstate -> option (value * pstate))
+    (poe : pstate -> list (okey * value) -> option (list (okey * value) * pstate))
+    (st : pstate) (acc : list (okey * value)) : option (list (okey * value) * pstate) :=
+  if see_op [[125]] st then Some (acc, st)
+  else if negb (p_see TIdent st || p_see TString st)
+  then Some (acc, p_add EExpectObjectEntry st)
+  else
+    let k := cur st in
+    let st1 := p_next st in
+    let '(kv, st2) :=
+      if ttype_eqb (pty k) TString then parse_string_value k st1 else (BNone, st1) in
+    let st3 := snd (expect_op [58] st2) in
+    match pv st3 with
+    | None => None
+    | Some (v, st4) =>
+        let st5 :=
+          if see_op [[44]] st4 then p_next st4
+          else if negb (see_op [[125]] st4) then snd (expect_op [44] st4)
+          else st4 in
+        let acc' := acc ++ [(mkKey (pty k) (plit k) kv, v)] in
+        if jail st5 then Some (acc', st5)
+        else poe st5 acc'
+    end.
+
+Definition ple_body
+    (pv : pstate -> option (value * pstate))
+    (ple : pstate -> list value -> option (list value * pstate))
+    (st : pstate) (acc : list value) : option (list value * pstate) :=
+  if see_op [[93]] st then Some (acc, st)
+  else
+    match pv st with
+    | None => None
+    | Some (v, st1) =>
+        let st2 :=
+          if see_op [[44]] st1 then p_next st1
+          else if negb (see_op [[93]] st1) then snd (expect_op [44] st1)
+          else st1 in
+        let acc' := acc ++ [v] in
+        if jail st2 then Some (acc', st2)
+        else ple st2 acc'
+    end.
+
+(* The recursive calls are passed eta-expanded so that call-by-value
+   evaluation (vm_compute) only unfolds the calls that are made. *)
+Fixpoint parse_value (fuel : nat) (st : pstate) {struct fuel} : option (value * pstate) :=
   match fuel with
   | O => None
-  | S f =>
-      let t := cur st in
-      match pty t with
-      | TKeyword =>
-          let st1 := p_next st in
-          if list_N_eqb (plit t) lit_true || list_N_eqb (plit t) lit_false
-          then Some (VBool (plit t), st1)
-          else if list_N_eqb (plit t) lit_null then Some (VNull, st1)
-          else Some (VNil, p_add EUnexpectedKeyword st1)
-      | TString =>
-          let '(bv, st2) := parse_string_value t (p_next st) in
-          Some (VBasic None TString (plit t) bv, st2)
-      | TInt => Some (VBasic None TInt (plit t) BNone, p_next st)
-      | TFloat =>
-          let '(bv, st2) := parse_float_value t (p_next st) in
-          Some (VBasic None TFloat (plit t) bv, st2)
-      | TOperator =>
-          if lit_is t [43] || lit_is t [45] then
-            let st1 := p_next st in
-            let n := cur st1 in
-            match pty n with
-            | TInt => Some (VBasic (Some (plit t)) TInt (plit n) BNone, p_next st1)
-            | TFloat =>
-                let '(bv, st2) := parse_float_value n (p_next st1) in
-                Some (VBasic (Some (plit t)) TFloat (plit n) bv, st2)
-            | _ => Some (VNil, p_add EExpectNumber st1)
-            end
-          else if lit_is t [123] then
-            match parse_object_entries f (p_next st) [] with
-            | None => None
-            | Some (es, st2) => Some (VObject es, snd (expect_op [125] st2))
-            end
-          else if lit_is t [91] then
-            match parse_list_entries f (p_next st) [] with
-            | None => None
-            | Some (es, st2) => Some (VList es, snd (expect_op [93] st2))
-            end
-          else Some (VNil, p_add EExpectOperand st)
-      | TIdent => parse_ident_list f st []
-      | _ => Some (VNil, p_add EExpectOperand st)
-      end
+  | S f => pv_body (fun s a => parse_object_entries f s a) (fun s a => parse_list_entries f s a)
+                   (fun s a => parse_ident_list f s a) st
   end
 
-with parse_object_entries (fuel : nat) (st : pstate) (acc : list (okey * value))
+with parse_object_entries (fuel : nat) (st : pstate) (acc : list (okey * value)) {struct fuel}
   : option (list (okey * value) * pstate) :=
   match fuel with
   | O => None
-  | S f =>
-      if see_op [[125]] st then Some (acc, st)
-      else if negb (p_see TIdent st || p_see TString st)
-      then Some (acc, p_add EExpectObjectEntry st)
-      else
-        let k := cur st in
-        let st1 := p_next st in
-        let '(kv, st2) :=
-          if ttype_eqb (pty k) TString then parse_string_value k st1 else (BNone, st1) in
-        let st3 := snd (expect_op [58] st2) in
-        match parse_value f st3 with
-        | None => None
-        | Some (v, st4) =>
-            let st5 :=
-              if see_op [[44]] st4 then p_next st4
-              else if negb (see_op [[125]] st4) then snd (expect_op [44] st4)
-              else st4 in
-            let acc' := acc ++ [(mkKey (pty k) (plit k) kv, v)] in
-            if jail st5 then Some (acc', st5)
-            else parse_object_entries f st5 acc'
-        end
+  | S f => poe_body (fun s => parse_value f s) (fun s a => parse_object_entries f s a) st acc
   end
 
-with parse_list_entries (fuel : nat) (st : pstate) (acc : list value)
+with parse_list_entries (fuel : nat) (st : pstate) (acc : list value) {struct fuel}
   : option (list value * pstate) :=
   match fuel with
   | O => None
-  | S f =>
-      if see_op [[93]] st then Some (acc, st)
-      else
-        match parse_value f st with
-        | None => None
-        | Some (v, st1) =>
-            let st2 :=
-              if see_op [[44]] st1 then p_next st1
-              else if negb (see_op [[93]] st1) then snd (expect_op [44] st1)
-              else st1 in
-            let acc' := acc ++ [v] in
-            if jail st2 then Some (acc', st2)
-            else parse_list_entries f st2 acc'
-        end
+  | S f => ple_body (fun s => parse_value f s) (fun s a => parse_list_entries f s a) st acc
   end.
+
+Lemma parse_value_S f st :
+  parse_value (S f) st
+  = pv_body (parse_object_entries f) (parse_list_entries f) (parse_ident_list f) st.
+Proof. reflexivity. Qed.
+
+Lemma parse_object_entries_S f st acc :
+  parse_object_entries (S f) st acc
+  = poe_body (parse_value f) (parse_object_entries f) st acc.
+Proof. reflexivity. Qed.
+
+Lemma parse_list_entries_S f st acc :
+  parse_list_entries (S f) st acc
+  = ple_body (parse_value f) (parse_list_entries f) st acc.
+Proof. reflexivity. Qed.
 
 (** parseTypeName *)
 Definition parse_type_name (st : pstate) : option (list N) * pstate :=
